@@ -17,6 +17,12 @@ RULE = ("weights: exhaustive sweep fd_order{2,4,6,8} x boundary{no boundary,"
         "distinct non-trivial case. generated: Hypothesis draws non-cubic "
         "grids with distinct spacings and smooth/polynomial fields for "
         "axis-exchange, component-wise and polynomial-exactness oracles; "
+        "a fifth of the weight cells put the box ~1e5 spacings from the "
+        "origin with the spacing given through the parameter dictionary; "
+        "component-wise also checks homogeneity at amplitudes 2^-200..2^100 "
+        "and differentiates the same array object again after its contents "
+        "were replaced in place; integer and float32 storage; mode names are "
+        "passed as run-time strings. "
         "non-trivial = non-cubic grid with three distinct spacings.")
 ASSUMPTIONS = [
     "minimum supported N is taken as 3p/2 (one-sided) and p/2+1 (periodic, "
